@@ -112,6 +112,9 @@ func (e *PathMatchExpression) parsex(l *lex) {
 func (e *PathMatchExpression) expandPaths(sub *PathMatchExpression) {
 	expanded := make([]segments, len(e.paths)*len(sub.paths))
 	for i, dest := range e.paths {
+		// every expanded path gets its own copy of the prefix, spare capacity of dest
+		// would otherwise be shared by all of them and the last one would win
+		dest = dest[:len(dest):len(dest)]
 		for j, src := range sub.paths {
 			k := (i * len(sub.paths)) + j
 			expanded[k] = append(dest, src...)
